@@ -102,6 +102,7 @@ type lexer struct {
 	last      atomic.Value
 	emitted   bool
 	lead      bool
+	bslash    bool // linebreak has read the backslash that begins the next token
 	start     bool
 	bquote    bool
 }
@@ -973,7 +974,13 @@ Scan:
 
 func (l *lexer) scanRawToken() int {
 	for {
-		r, err := l.read()
+		r, err := rune('\\'), error(nil)
+		if l.bslash {
+			// linebreak has read this backslash
+			l.bslash = false
+		} else {
+			r, err = l.read()
+		}
 		if err != nil {
 			if err == io.EOF {
 				if l.lit(); len(l.word) != 0 {
@@ -1718,6 +1725,22 @@ func (l *lexer) linebreak() bool {
 			} else {
 				l.mark(0)
 			}
+		case '\\':
+			if hash {
+				l.b.WriteRune(r)
+				break
+			}
+			// a line continuation is skipped like a blank; any other
+			// backslash begins the next token
+			if r, err := l.read(); err == nil {
+				if r == '\n' {
+					l.mark(0)
+					break
+				}
+				l.unread()
+			}
+			l.bslash = true
+			return true
 		default:
 			if !hash || r == '`' && l.cmdSubst == '`' {
 				// (the closing backquote of the substitution ends
